@@ -57,6 +57,10 @@ def cases():
         lambda o, i: P("Paren", this=IS(i)), "same precedence problem for ->>")
     add("TRIM(x) -> TRIM(CAST(x AS VARCHAR))", "trim_cast_varchar", mk(lambda o: node("Trim", "stmt", this=op(o, "x"))),
         lambda o, i: P("Trim", this=P("Cast", this=IS(o["x"]), to=P("DataType", this=ENUM("VARCHAR")))), "TRIM implicitly converts its input to text")
+    add("TRIM(x, chars) / LTRIM keep the trim characters and the position", "trim_cast_varchar",
+        mk(lambda o: node("Trim", "stmt", this=op(o, "x"), expression=op(o, "chars"), position=op(o, "pos", node("Var", this=Const("LEADING"))))),
+        lambda o, i: P("Trim", this=P("Cast", this=IS(o["x"])), expression=IS(o["chars"]), position=IS(o["pos"])),
+        "the characters to trim and LEADING/TRAILING must survive the VARCHAR cast of the input")
     add("TRIM(CAST(x AS VARCHAR)) is left alone", "trim_cast_varchar",
         mk(lambda o: node("Trim", "stmt", this=node("Cast", this=op(o, "x"), to=dtype("VARCHAR")))), UNCHANGED, "already text")
     add("LATERAL FLATTEN(input => a) f -> LATERAL UNNEST(CAST(a AS JSON[])) f(VALUE)", "flatten",
